@@ -30,6 +30,7 @@ type Config struct {
 	MaxChoice int
 	Redirect  map[string]string // callee full name -> replacement function full name
 	Cuts      map[string]bool   // names for which rt.CutActive returns true
+	AbsHex       bool           // hex.EncodeToString of symbolic bytes is abstract text (inverted by hex.DecodeString), not executed
 	LazyBigBytes bool           // (*big.Int).Bytes returns a LazyBytes value (forced on first use other than a call/store/return)
 	Concrete  []int64           // concrete mode: values for Nondet calls (translator validation / replay-in-engine)
 	IsConc    bool
